@@ -62,6 +62,8 @@ def gen(rng, tier):
         'connect_arity': rng.choice([None, None, 3, 3, 2]),
         # msgpack serializer: namespace names are arbitrary strings there
         'msgpack': rng.random() < 0.25,
+        # the disconnect handler tells the namespace that the client left
+        'disc_emits': rng.random() < 0.25,
     }
     npeers = rng.randrange(1, 4)
     ops = []
@@ -187,6 +189,12 @@ def _run(case, cfg, w):
             return steps
         if event == 'disconnect':
             pause = w.choices.pick('app', PAUSES, 'dpause')
+            if cfg.get('disc_emits'):
+                dns = args[0] if ns == '*' else ns
+                return [('pause', pause),
+                        ('do', lambda: srv.emit('left', 'bye',
+                                                namespace=dns)),
+                        ('ret', None)]
             return [('pause', pause), ('ret', None)]
         return [('ret', 'pong')]
 
@@ -481,6 +489,12 @@ def _run(case, cfg, w):
                 v.add('server_disconnect_raised', '%s: %r' % (where, op_h.exc),
                       type(op_h.exc).__name__)
             got = [g for g in new_rx(p) if g.nsp == ns]
+            # (the handler's own farewell to the namespace still reaches the
+            # departing client: it is in its rooms until the handler is done)
+            got = got[:1] + [g for g in got[1:]
+                             if not (cfg.get('disc_emits') and
+                                     g.base == sio.EVENT and
+                                     g.data == ['left', 'bye'])]
             if [sio.NAMES[g.type] for g in got] != ['DISCONNECT']:
                 v.add('server_disconnect_packet', '%s: peer saw %s'
                       % (where, got))
